@@ -66,6 +66,10 @@ pub struct Obj {
     pub was_buffered: bool,
     pub processed_by_collection: bool,
     pub resurrected: bool,
+    pub bulk_registered: u32, // Map: no-op actions registered in bulk
+    pub bulk_runs: u32,       // Map: how many of them have run
+    pub bulk_cleaned: u32,    // Map: how many of the kept cleanables had clean() called
+    pub bulk_cleanables: u32, // Map: kept cleanables still alive (each holds a Weak to the map)
 }
 
 impl Obj {
@@ -103,6 +107,10 @@ impl Obj {
             was_buffered: false,
             processed_by_collection: false,
             resurrected: false,
+            bulk_registered: 0,
+            bulk_runs: 0,
+            bulk_cleaned: 0,
+            bulk_cleanables: 0,
         }
     }
     pub fn value_alive(&self) -> bool {
@@ -206,6 +214,7 @@ pub struct Model {
     pub trace_seen_in_call: bool,
     pub threshold_changed: bool,
     pub buf_at_collection_start: Vec<ObjId>, // members of the buffer (hook walk) when the running collection started
+    pub caught_in_callback: bool,
     pub clean_stack: Vec<u32>, // action each running Cleanable::clean() call is entitled to run
     pub touched_this_call: Vec<ObjId>, // objects the running collection / destruction chain has traced, finalized or dropped
     pub tls_roots: Vec<ObjId>, // Ccs parked in a user thread-local (C19)
@@ -228,6 +237,7 @@ pub struct Tables {
     pub bag: Vec<Option<AnyVal>>,
     pub bulk_strong: BTreeMap<ObjId, Vec<AnyCc>>,
     pub bulk_weak: BTreeMap<ObjId, Vec<AnyWeak>>,
+    pub bulk_cleanables: BTreeMap<ObjId, Vec<Cleanable>>,
 }
 
 #[derive(Clone, Debug)]
@@ -362,6 +372,7 @@ impl World {
                 trace_seen_in_call: false,
                 threshold_changed: false,
                 buf_at_collection_start: Vec::new(),
+                caught_in_callback: false,
                 clean_stack: Vec::new(),
                 touched_this_call: Vec::new(),
                 tls_roots: Vec::new(),
@@ -383,6 +394,7 @@ impl World {
                 bag: Vec::new(),
                 bulk_strong: BTreeMap::new(),
                 bulk_weak: BTreeMap::new(),
+                bulk_cleanables: BTreeMap::new(),
             }),
             faults,
             obs: RefCell::new(Vec::new()),
@@ -621,6 +633,7 @@ impl World {
         }
         std::mem::forget(std::mem::take(&mut t.bulk_strong));
         std::mem::forget(std::mem::take(&mut t.bulk_weak));
+        std::mem::forget(std::mem::take(&mut t.bulk_cleanables));
     }
 
     pub fn new_obj(&self, kind: ObjKind, status: Status) -> ObjId {
